@@ -33,8 +33,10 @@ Proof.
 Qed.
 
 (* ---------- loading ---------- *)
+(* clause lines without literal 0, satisfiable.  (Before repair F9 "stored set not empty" was a
+   third condition: such a CNF got no clause cache, K14.) *)
 Definition good_input (raw : list (list Z)) : Prop :=
-  nzs raw /\ (exists s0 : asg, cs_sat s0 raw = true) /\ stored_set raw <> [].
+  nzs raw /\ (exists s0 : asg, cs_sat s0 raw = true).
 
 Lemma stored_equiv_input raw : nzs raw -> (exists s0 : asg, cs_sat s0 raw = true) ->
   forall s, cs_sat s (stored_set raw) = cs_sat s raw.
@@ -45,9 +47,16 @@ Qed.
 Lemma load_R loadable raw n d : good_input raw -> load_cnf loadable raw n = Some d ->
   R loadable d (m_init (stored_set raw) n).
 Proof.
-  intros [Hnz [Hsat Hne]] Hl. apply (R_init loadable raw n (stored_set raw) d Hl Hne).
+  intros [Hnz Hsat] Hl. apply (R_init loadable raw n (stored_set raw) d Hl).
   - intros s. symmetry. apply stored_equiv_input; assumption.
   - intros x. tauto.
+Qed.
+
+Lemma load_has_cache loadable raw n d :
+  load_cnf loadable raw n = Some d ->
+  cached d = Some (initialize (stored_set raw) n) /\ live_of d = (raw, n) /\ loadable raw n = true.
+Proof.
+  unfold load_cnf. destruct (loadable raw n); [|discriminate]. intros H. inversion H. repeat split.
 Qed.
 
 (* save-cnf right after loading: the stored set, which has the models of the input *)
@@ -56,9 +65,7 @@ Theorem initial_save loadable raw n d : good_input raw -> load_cnf loadable raw 
   forall s, cs_sat s (stored_set raw) = cs_sat s raw.
 Proof.
   intros HG Hl. split; [|apply stored_equiv_input; apply HG].
-  unfold load_cnf, load_cnf_with in Hl. destruct (loadable raw n); [|discriminate]. inversion Hl; subst d; clear Hl.
-  unfold save_cnf. cbn [cached live_n live_of snd].
-  destruct HG as [_ [_ Hne]]. destruct (stored_set raw) as [|c0 r0]; [exfalso; apply Hne; reflexivity|].
+  unfold load_cnf in Hl. destruct (loadable raw n); [|discriminate]. inversion Hl; subst d; clear Hl.
   reflexivity.
 Qed.
 
@@ -71,23 +78,6 @@ Theorem refines loadable raw n d cmds :
   (~ In APanic ans -> R loadable d' (m_run m0 cmds)).
 Proof.
   intros HG Hl m0. apply (run_refines loadable cmds d m0). apply load_R; assumption.
-Qed.
-
-(* the same with the repair proposed for K11 (the cache exists for every CNF input): the
-   hypothesis "stored set not empty" disappears *)
-Theorem refines_k11_repaired loadable raw n d cmds :
-  nzs raw -> (exists s0 : asg, cs_sat s0 raw = true) ->
-  load_cnf_with true loadable raw n = Some d ->
-  let m0 := m_init (stored_set raw) n in
-  let '(d', ans) := cc_run false loadable d cmds in
-  answers_ok loadable m0 cmds ans /\
-  (~ In APanic ans -> R loadable d' (m_run m0 cmds)).
-Proof.
-  intros Hnz Hsat Hl m0. apply (run_refines loadable cmds d m0).
-  apply (R_init_with loadable true raw n (stored_set raw) d Hl).
-  - left. reflexivity.
-  - intros s. symmetry. apply stored_equiv_input; assumption.
-  - intros x. tauto.
 Qed.
 
 (* a rejected clause-update changes nothing, an accepted one is the abstract update *)
@@ -248,21 +238,36 @@ Lemma refuted_unsat_panic :
 Proof.
   exists [[1; 2]], 2%nat.
   eexists. split.
-  - split; [|split].
+  - split.
     + intros c [<-|[]] l [<-|[<-|[]]]; discriminate.
     + exists (fun _ => true). reflexivity.
-    + vm_compute. discriminate.
   - split; [vm_compute; reflexivity|]. vm_compute. repeat split; reflexivity.
 Qed.
 
-(* ---------- K11: a CNF whose stored set is empty gets no cache at all ---------- *)
-Lemma refuted_empty_cnf :
-  exists raw n d, load_cnf always raw n = Some d /\ (forall s : asg, cs_sat s raw = true) /\
+(* ---------- K14, the loader BEFORE repair F9: a CNF whose stored set is empty got no cache at
+   all; the repaired loader answers the same commands as the abstract machine does ---------- *)
+Lemma refuted_empty_cnf_v0 :
+  exists raw n d, load_cnf_v0 always raw n = Some d /\ (forall s : asg, cs_sat s raw = true) /\
     save_cnf d = AErr E5_no_save /\
     snd (clause_update false always d None [[1]] []) = AErr E5_no_clauses /\
-    snd (clause_update false always d (Some 3) [] []) = AErr E5_no_clauses.
+    snd (clause_update false always d (Some 3) [] []) = AErr E5_no_clauses /\
+    exists d', load_cnf always raw n = Some d' /\
+      save_cnf d' = ASaved ["p cnf 2 0"%string] /\
+      snd (cc_run false always d' [CUpdate None [[1]] []; CSave; CUpdate (Some 3) [] []; CSave; CUndo; CUndo; CSave]) =
+      [AOk; ASaved ["p cnf 2 1"; "1 0"]%string; AOk; ASaved ["p cnf 3 1"; "1 0"]%string; AOk; AOk;
+       ASaved ["p cnf 3 1"; "1 0"]%string].
 Proof.
   exists [[1; -1]], 2%nat. eexists. split; [vm_compute; reflexivity|].
-  split; [|vm_compute; repeat split; reflexivity].
-  intros s. cbn. unfold lit_true. cbn. destruct (s 1); reflexivity.
+  split; [intros s; cbn; unfold lit_true; cbn; destruct (s 1); reflexivity|].
+  split; [vm_compute; reflexivity|]. split; [vm_compute; reflexivity|]. split; [vm_compute; reflexivity|].
+  eexists. split; [vm_compute; reflexivity|]. vm_compute. split; reflexivity.
+Qed.
+
+(* an input without effective clauses satisfies the hypotheses of the main theorem *)
+Lemma empty_cnf_good : good_input [] /\ good_input [[1; -1]] /\ stored_set [[1; -1]] = [] /\
+  exists d, load_cnf always [[1; -1]] 2 = Some d.
+Proof.
+  split; [split; [intros c []|exists (fun _ => true); reflexivity]|].
+  split; [split; [intros c [<-|[]] l [<-|[<-|[]]]; discriminate|exists (fun _ => true); reflexivity]|].
+  split; [vm_compute; reflexivity|]. eexists. vm_compute. reflexivity.
 Qed.
